@@ -70,3 +70,50 @@ pub proof fn lemma_filter_take_prefix<V>(s: Seq<V>, n: int, p: spec_fn(V) -> boo
     assert((a + b).take(a.len() as int) =~= a);
 }
 } // verus!
+verus! {
+pub proof fn lemma_filter_ext<V>(s: Seq<V>, p: spec_fn(V) -> bool, q: spec_fn(V) -> bool)
+    requires forall|x: V| #[trigger] p(x) == q(x),
+    ensures s.filter(p) == s.filter(q),
+    decreases s.len(),
+{
+    reveal(Seq::filter);
+    if s.len() > 0 {
+        lemma_filter_ext(s.drop_last(), p, q);
+    }
+}
+pub proof fn lemma_filter_subset<V>(s: Seq<V>, p: spec_fn(V) -> bool)
+    ensures forall|j: int| 0 <= j < s.filter(p).len() ==> s.contains(#[trigger] s.filter(p)[j]),
+    decreases s.len(),
+{
+    reveal(Seq::filter);
+    if s.len() > 0 {
+        let t = s.drop_last();
+        lemma_filter_subset(t, p);
+        assert forall|j: int| 0 <= j < s.filter(p).len() implies s.contains(#[trigger] s.filter(p)[j]) by {
+            if j < t.filter(p).len() {
+                assert(t.contains(t.filter(p)[j]));
+                let i = choose|i: int| 0 <= i < t.len() && t[i] == t.filter(p)[j];
+                assert(s[i] == t[i]);
+            } else {
+                assert(s[s.len() - 1] == s.last());
+            }
+        }
+    }
+}
+/// every element of a page is a value of the underlying map
+pub proof fn lemma_page_elems<K, V>(m: SMap<u64, V>, items: Seq<StdResult<(K, V)>>, p: spec_fn(V) -> bool, limit: Option<u32>)
+    requires
+        forall|i: int| 0 <= i < items.len() ==> (#[trigger] items[i]) is Ok && m.contains_value(items[i]->Ok_0.1),
+    ensures
+        forall|j: int| 0 <= j < page_of_p(items, p, limit).len() ==> m.contains_value(#[trigger] page_of_p(items, p, limit)[j]),
+{
+    let vals = item_vals(items);
+    let fv = vals.filter(p);
+    lemma_filter_subset(vals, p);
+    assert forall|j: int| 0 <= j < fv.len() implies m.contains_value(#[trigger] fv[j]) by {
+        assert(vals.contains(fv[j]));
+        let i = choose|i: int| 0 <= i < vals.len() && vals[i] == fv[j];
+        assert(vals[i] == items[i]->Ok_0.1);
+    }
+}
+} // verus!
